@@ -10,7 +10,8 @@ LEAN_MODULES = ['PydlVerif.Props.C05']
 P = 'PydlVerif.C05.'
 THEOREMS = [P + t for t in (
     'lists_of_labels', 'renumber_first_appearance', 'resolve_roots', 'groups_lists', 'groups_sound',
-    'groups_complete', 'groups_fof', 'sphere_lists_partial')]
+    'groups_complete', 'groups_fof', 'sphere_lists_partial', 'merge_refines', 'spheregroup_fof',
+    'merge_ngroups', 'spheregroup_ngroups')]
 RULE = ('abstract graphs driven through the real class `groups` (callable separation): every graph on <=5 (quick) / <=6 (thorough) '
         'vertices, random sparse/dense/chain/star/stale-label graphs on 6-40 vertices, random directed relations (model only); '
         'spheregroup on chains crossing many cells, RA-seam clusters, polar caps, all-sky scatter, lattice points on cell edges, '
@@ -23,20 +24,23 @@ TRUSTED = ['hand-written model lean/PydlVerif/Model/Fof.lean tied to the code by
 ASSUMPTIONS = ['the separation test is symmetric and reflexive (checked on every closeness matrix)',
                'no pair lies within 1e-9 relative (+1e-12 deg) of the link length: such inputs are regenerated, not judged',
                'two or more points; link length > 0; all coordinates finite, -90 <= dec <= 90, 0 <= ra < 360']
-LEVEL_TEXT = ('Machine-checked Lean 4 theorems, for all sizes and all reflexive symmetric relations / all labellings, about an executable '
-              'model of groups, friendsoffriends and spheregroup: the O(n^2) loop of class groups computes exactly the connected components '
-              '(groups_fof: same label <=> joined by a chain of close pairs), every loop terminates and no index leaves the arrays; the '
-              'renumbering pass yields first-appearance numbering without changing the partition; the rebuilt first/next/mult arrays are '
-              'exactly the sorted member lists and sizes of any labelling; the second pass of the cross-chunk merge resolves every '
-              'provisional label to the number of its root. The model is tied to the code on every run by exact equality of all four '
-              'arrays on bounded-exhaustive (all graphs on <=6 vertices) and random abstract graphs pushed through the REAL class groups, '
-              'and on spheregroup runs with the real cell lists; an independent union-find over brute-force separations decides the '
-              'property itself on every case.')
-LEVEL_NOTE = ('Partial: the first pass of the cross-chunk merge (union-find with path compression; merge_refines) and hence spheregroup_fof '
-              '(CoverFoF => final labelling = components) are NOT proved; for spheregroup as a whole the proof covers the per-cell grouping and '
-              'everything after the merge (sphere_lists_partial), the merge itself is covered by correspondence and the oracle only. '
-              'The chunk grid is a parameter of the model (CoverFoF is sampled on every case, not proved); float rounding in gcirc is outside '
-              'the model; the hand-written model is validated by the correspondence sample only.')
+LEVEL_TEXT = ('Machine-checked Lean 4 theorems, for all sizes, all reflexive symmetric relations and all cell lists, about an executable '
+              'model of groups, friendsoffriends and spheregroup. spheregroup_fof: under CoverFoF (every point in a cell, every close pair '
+              'shares a cell, no point twice in a cell, cell occupancy <= 9n) the output of spheregroup is exactly the friends-of-friends '
+              'partition - same label <=> joined by a chain of close pairs, labels 0,1,2,... in order of first member, first/next exactly '
+              'the sorted member lists, mult[c] the size of group c for every c - every loop terminates and no index leaves the arrays. '
+              'Its parts: groups_fof (the O(n^2) loop of class groups computes the components), merge_refines (the cross-chunk union-find '
+              'with path compression keeps mapGroups[l] <= l and ends with: same resolved label <=> related by the FINEST equivalence '
+              'containing every per-cell partition), resolve_roots, renumber_first_appearance, lists_of_labels. The model is tied to the '
+              'code on every run by exact equality of all output arrays on bounded-exhaustive (all graphs on <=6 vertices) and random '
+              'abstract graphs pushed through the REAL class groups, on abstract cell covers (complete and incomplete) pushed through the '
+              'REAL chunks.friendsoffriends, and on spheregroup runs with the real cell lists; an independent union-find over brute-force '
+              'separations decides the property itself on every case.')
+LEVEL_NOTE = ('The proof is complete relative to its stated hypothesis CoverFoF: the chunk grid (chunks.__init__/assign/getbounds) is a '
+              'parameter of the model, CoverFoF (incl. occupancy <= 9n, the size of the label table the code allocates) is evaluated on the '
+              'captured cells of every case and counted in the evidence, not proved; float rounding in gcirc is outside the model (the '
+              'closeness relation is a parameter, its symmetry/reflexivity is checked per case); the hand-written model is validated by the '
+              'correspondence sample only. sphere_lists_partial is kept (it holds for arbitrary cell lists, without CoverFoF).')
 TECHNIQUE = 'Lean 4 model + theorems; bounded-exhaustive and random I/O correspondence; independent union-find oracle'
 
 
@@ -130,17 +134,19 @@ def _real_friends(n, rows, cells):
             'next': [int(x) for x in out[3]], 'ng': int(out[4])}
 
 
-def _random_cover(rng, n, rows):
+def _random_cover(rng, n, rows, complete=True):
     """a cover satisfying CoverFoF by construction: every point in >= 1 cell, every close pair shares a cell,
-    no point twice in a cell; cells grouped into bands in a random visiting order"""
+    no point twice in a cell; cells grouped into bands in a random visiting order.  complete=False: some close
+    pairs are left without a common cell (then the merge must produce the join of the per-cell partitions)"""
     k = rng.randrange(2, 9)
     cells = [set() for _ in range(k)]
     home = [rng.randrange(k) for _ in range(n)]
     for i in range(n):
         cells[home[i]].add(i)
+    skip = 0.0 if complete else rng.choice((0.3, 0.6, 1.0))
     for i in range(n):
         for j in range(i + 1, n):
-            if (rows[i] >> j) & 1 and not any(i in c and j in c for c in cells):
+            if (rows[i] >> j) & 1 and not any(i in c and j in c for c in cells) and not (skip and rng.random() < skip):
                 r = rng.random()
                 if r < 0.4:
                     cells[home[i]].add(j)
@@ -208,7 +214,10 @@ def _merge(ctx, cases=None, oracle_only=False):
             else:
                 n = rng.randrange(2, 15)
                 kind, rows = _random_graph(rng, n)
-                bands = _random_cover(rng, n, rows)
+                partial = rng.random() < 0.25
+                bands = _random_cover(rng, n, rows, complete=not partial)
+                if partial:
+                    kind = 'partial-cover:' + kind
             cases.append({'stream': 'merge', 'kind': kind, 'n': n, 'rows': rows, 'cells': bands})
     model = [None] * len(cases)
     if not oracle_only:
@@ -226,8 +235,19 @@ def _merge(ctx, cases=None, oracle_only=False):
         if 'err' in impl:
             ctx.violate('merge:exception:' + impl['err'], 'chunks.friendsoffriends raised %s (%s) on a valid cover' % (impl['err'], impl.get('msg')), c)
             continue
-        # oracle: the partition (numbering is canonicalised later by spheregroup) is the set of connected components
-        root = _uf(c['n'], _pairs_of_rows(c['n'], c['rows']))
+        # hypotheses of merge_refines / spheregroup_fof on this cover (counted in the evidence)
+        flat = [cell for band in c['cells'] for cell in band]
+        pairs = _pairs_of_rows(c['n'], c['rows'])
+        hyp = _cover_hyp(c['n'], flat, pairs)
+        ctx.count('merge:CoverFoF=' + hyp)
+        # oracle (statement of merge_refines): the partition is the FINEST one containing every per-cell partition, i.e. the
+        # components of the graph of close pairs that share a cell (= all close pairs, the components, under CoverFoF);
+        # the numbering is canonicalised later by spheregroup
+        cells_of = [set() for _ in range(c['n'])]
+        for k, cell in enumerate(flat):
+            for p_ in cell:
+                cells_of[p_].add(k)
+        root = _uf(c['n'], [(a, b) for a, b in pairs if cells_of[a] & cells_of[b]])
         g = impl['in']
         bad = None
         for a in range(c['n']):
@@ -470,21 +490,29 @@ def _judge_sphere(c, r):
     return None
 
 
-def _cover(r, n):
-    """CoverFoF on the captured cell lists"""
-    ch = r['chunks']
-    if ch is None:
-        return None
+def _cover_hyp(n, ch, pairs):
+    """the hypothesis CoverFoF of spheregroup_fof (Props/C05.lean) on a list of cells"""
     cells_of = [set() for _ in range(n)]
     for k, cell in enumerate(ch):
         for p in cell:
             cells_of[p].add(k)
     if any(not s for s in cells_of):
         return 'point-in-no-cell'
-    for a, b in r['pairs']:
+    for a, b in pairs:
         if not (cells_of[a] & cells_of[b]):
             return 'close-pair-shares-no-cell'
+    if any(len(set(cell)) != len(cell) for cell in ch):
+        return 'point-twice-in-a-cell'
+    if sum(len(cell) for cell in ch) > 9 * n:
+        return 'occupancy-above-9n'
     return 'ok'
+
+
+def _cover(r, n):
+    """CoverFoF on the captured cell lists"""
+    if r['chunks'] is None:
+        return None
+    return _cover_hyp(n, r['chunks'], r['pairs'])
 
 
 def _only_pole_dropped(c, r):
